@@ -11,6 +11,8 @@ END = ['check_fresh']
 RULE = ('one run = a seeded universe (bases, several versions per id, extensions, extensions of '
         'extensions, requires, ILI files) + a seeded fault-free history of 6-14 add/remove/'
         'add-ILI/restart/checkpoint ops with random routes, BATCH_SIZE and read chunking; after '
+        '(in 30% of the runs removed lexicons are RE-RELEASED: other content under the same '
+        'id:version, re-added later - usually at the rowid the old release had); '
         'every op: installed set, full model image per extension family, dependency links, '
         'foreign_key_check/integrity_check; at checkpoints and at the end: rowid-free logical dump '
         'equal to a database built fresh from the installed set. distinct = distinct event '
@@ -29,10 +31,15 @@ def build(seed):
     if subseed(seed, 'big').random() < 0.001:
         return build_big(seed)
     rng = subseed(seed, 'universe')
-    u = U.generate(rng)
+    prof = U.Profile.draw(rng)
+    rerelease = subseed(seed, 'rerelease').random() < 0.3
+    if rerelease:
+        prof['p_rerelease'] = 0.7
+    u = U.generate(rng, prof)
     prng = subseed(seed, 'plan')
     swarm = {'routes': prng.random() < 0.7, 'batch': prng.random() < 0.7,
-             'short_reads': prng.random() < 0.5, 'external': prng.random() < 0.08}
+             'short_reads': prng.random() < 0.5, 'external': prng.random() < 0.08,
+             'rerelease': rerelease}
     plan = P.history(prng, u, prng.randint(6, 14), swarm)
     return u, plan
 
